@@ -70,7 +70,9 @@ func (lfu *LFUCacheEvictionPolicy) TrackSetAndReturnEvictedKeys(key string, size
 	lfu.evictionChecker.TrackSet(key, size)
 
 	evictedKeys := []string{}
-	for lfu.evictionChecker.ShouldEvict() {
+	// Stop when nothing is left to evict: a single entry larger than the whole
+	// limit must not pop the empty heap (which panics with the cache mutex held).
+	for lfu.evictionChecker.ShouldEvict() && lfu.minLFUCacheHeap.Len() > 0 {
 		cacheEntryToEvict := heap.Pop(&lfu.minLFUCacheHeap).(*LFUCacheEntry)
 		lfu.evictionChecker.TrackRemove(cacheEntryToEvict.key)
 		evictedKeys = append(evictedKeys, cacheEntryToEvict.key)
